@@ -110,6 +110,19 @@ def eval_case(cfg):
     if d < 1:
         V.append({'key': dict(key, kind='d-not-positive'), 'detail': {'d': d}})
         return res
+    # deformed versions of this code: a single-qubit Clifford relabelling preserves weights, so every
+    # deformed object must report the same d (its true distance is the same; C08 decides the relabelling)
+    for dfm in F.deformations(cfg['cls']):
+        try:
+            dd = int(F.build({'cls': cfg['cls'], 'size': cfg['size'], 'deformation': dfm}).d)
+        except Exception as exc:
+            continue                # construction problems of deformed codes are C01's
+        res['evals'] += 1
+        if dd != d:
+            V.append({'key': dict(key, kind='deformed-code-reports-different-d', deformation=dfm[0],
+                                  axis=dfm[1].get('deformation_axis', 'default')),
+                      'detail': {'d_undeformed': d, 'd_deformed': dd}})
+            break
     low_mask = (1 << n) - 1
     css = all((h & low_mask) == 0 or (h >> n) == 0 for h in H)
     target = min(d, wmin)            # prove: nothing non-trivial below `target`
